@@ -1,7 +1,10 @@
 """Per-property dynamic checks (correspondence + monitors + targeted generators)."""
-import json, os, random
+import json, os, random, subprocess, sys
 from common import *
 import driver, history, monitors, runner
+
+ALL_OBS = {'LiveSet', 'Uuid', 'Epic', 'Kind', 'State', 'Title', 'Body', 'ClaimedBy', 'Created', 'Updated', 'ClaimedAt', 'Deps',
+           'RDeps', 'Results', 'ReadyFlag', 'BlockedFlag', 'Tombs', 'ClaimOrder', 'PruneTargets', 'ReplayErr'}
 
 
 def sizes(ctx, quick, thorough):
@@ -11,10 +14,188 @@ def sizes(ctx, quick, thorough):
 def check_C06(ctx):
     tags = {'Exit', 'Events', 'State', 'ClaimedBy', 'Reply'}
     n, steps = sizes(ctx, (48, 25), (600, 30))
-    driver.history_check(ctx, tags, n, steps)
+    prof = {'weights': {'set': 45, 'claim': 18, 'new': 25}}
+    driver.history_check(ctx, tags, n, steps, profile=prof)
+
+
+def check_C07(ctx):
+    tags = {'Exit', 'Events', 'Deps', 'RDeps'}
+    n, steps = sizes(ctx, (48, 25), (600, 35))
+    prof = {'weights': {'seq': 40, 'seqrm': 10, 'plan': 8, 'prune': 8, 'new': 25, 'set': 12}}
+    driver.history_check(ctx, tags, n, steps, profile=prof)
+    driver.log_check(ctx, {'Deps', 'RDeps', 'ReplayErr', 'LiveSet'}, *sizes(ctx, (120, 25), (1500, 30)))
+
+
+def mon_gone(log, snap, comp):
+    """C09 on arbitrary logs: an id with a tombstone anywhere is absent from the replayed store."""
+    out = []
+    if 'replay_error' in snap:
+        return out
+    tomb = {e['id'] for e in log if e['t'] == 'tombstone' and e.get('at')}
+    live = {t['id'] for t in snap['tasks']}
+    for p in tomb & live:
+        out.append(('tombstoned_id_alive', p))
+    for t in snap['tasks']:
+        for d in t['deps'] + t['rdeps']:
+            if d in tomb:
+                out.append(('edge_to_tombstoned', t['id'], d))
+    return out
+
+
+def check_C09(ctx):
+    tags = {'Exit', 'Events', 'LiveSet', 'Tombs', 'PruneTargets', 'Reply', 'Deps', 'RDeps'}
+    n, steps = sizes(ctx, (48, 30), (500, 40))
+    prof = {'weights': {'prune': 16, 'set': 40, 'compact': 5, 'new': 20, 'seq': 10, 'claim': 8},
+            'states': ['done', 'canceled', 'done', 'todo', 'doing', 'blocked']}
+    driver.history_check(ctx, tags, n, steps, profile=prof, classify=None)
+    driver.log_check(ctx, {'LiveSet', 'Tombs', 'Deps', 'RDeps', 'ReplayErr', 'PruneTargets'}, *sizes(ctx, (150, 30), (2000, 35)),
+                     monitor=mon_gone)
+    known_post_compact_reuse(ctx)
+
+
+def known_post_compact_reuse(ctx):
+    """Known finding: after compact the tombstone is gone (documented post-compact behaviour), so a
+    candidate id equal to a pruned id is issued again.  Re-demonstrated on the real binary with the id hook."""
+    st = Store()
+    try:
+        rc, out, _ = st.run(['--json', 'new', 'task'], stdin=b'{"title":"t"}', env={'ERGO_VERIF_IDS': 'AAAAAA'})
+        st.run(['set', 'AAAAAA'], stdin=b'{"state":"done"}')
+        st.run(['prune', '--yes'])
+        # before compact the pruned id must be refused as a candidate
+        rc1, out1, _ = st.run(['--json', 'new', 'task'], stdin=b'{"title":"u"}', env={'ERGO_VERIF_IDS': 'AAAAAA,BBBBBB'})
+        got1 = (json.loads(out1) if rc1 == 0 else {}).get('id')
+        if got1 == 'AAAAAA':
+            ctx.violations.append(('monitor', 'pruned id reissued before compaction',
+                                   {'kind': 'forced-ids', 'ids': 'AAAAAA,BBBBBB', 'got': got1}))
+        st.run(['compact'])
+        rc2, out2, _ = st.run(['--json', 'new', 'task'], stdin=b'{"title":"v"}', env={'ERGO_VERIF_IDS': 'AAAAAA,CCCCCC'})
+        got2 = (json.loads(out2) if rc2 == 0 else {}).get('id')
+        ctx.cov['post_compact_reuse_demo'] = {'before_compact_got': got1, 'after_compact_got': got2}
+        kf = [k for k in driver.load_known() if k.get('id') == 'F-C09-post-compact-reuse' and k.get('status') == 'open']
+        if got2 == 'AAAAAA':
+            if kf:
+                ctx.known.append('%s (%s)' % (kf[0]['what'], kf[0]['id']))
+            else:
+                ctx.violations.append(('monitor', 'pruned id reissued after compaction', {'kind': 'forced-ids', 'got': got2}))
+        else:
+            ctx.cov['known_finding_not_reproduced'] = 'F-C09-post-compact-reuse'
+    finally:
+        st.close()
+
+
+def check_C10(ctx):
+    tags = {'Exit', 'Events'}
+    n, steps = sizes(ctx, (48, 30), (600, 40))
+    prof = {'weights': {'malformed': 10, 'set': 40, 'seq': 20, 'new': 25, 'plan': 8, 'claim': 12}, 'agent_p': 0.5}
+    driver.history_check(ctx, tags, n, steps, profile=prof)
+
+
+def check_C11(ctx):
+    tags = {'Exit', 'Events', 'Reply', 'LiveSet', 'Title', 'Body', 'Epic', 'Deps', 'RDeps', 'State', 'Created'}
+    n, steps = sizes(ctx, (48, 16), (500, 24))
+    prof = {'weights': {'plan': 45, 'new': 15, 'set': 12, 'prune': 6, 'compact': 3, 'seq': 6, 'claim': 4, 'malformed': 4}}
+    driver.history_check(ctx, tags, n, steps, profile=prof)
+    plan_malformed(ctx)
+
+
+def plan_malformed(ctx):
+    """Parse-level rejections are encoding/json behaviour: differential only (nothing written, exit 1)."""
+    docs = [b'', b'{', b'{"title":"x","tasks":[{"title":"a"}]} {"title":"y"}', b'{"title":"x","tasks":[{"title":"a","afterr":[]}]}',
+            b'{"title":"x","bogus":1,"tasks":[{"title":"a"}]}', b'[]', b'"str"', b'{"title":"x","tasks":"no"}',
+            b'{"title":"x","tasks":[{"title":"a","after":"b"}]}', b'{"title":null,"tasks":[{"title":"a"}]}',
+            b'{"title":"x","tasks":[]}', b'{"title":"x"}', b'{"title":"x","tasks":[{"title":"a","after":["a"]}]}',
+            b'{"title":"x","tasks":[{"title":"a","after":["b"]},{"title":"b","after":["a"]}]}',
+            b'{"title":"x","tasks":[{"title":"a"},{"title":"a"}]}', b'{"title":"x","body":"  ","tasks":[{"title":"a"}]}']
+    st = Store()
+    bad = []
+    try:
+        st.run(['new', 'task'], stdin=b'{"title":"pre"}')
+        before = st.read_log()
+        for d in docs:
+            rc, out, err = st.run(['--json', 'plan'], stdin=d)
+            if rc == 0 or st.read_log() != before:
+                bad.append(d.decode())
+        ctx.cov['plan_malformed_docs'] = len(docs)
+        for d in bad:
+            ctx.violations.append(('monitor', 'invalid plan payload accepted or wrote to the log', {'kind': 'plan-doc', 'doc': d}))
+    finally:
+        st.close()
+
+
+def check_C14(ctx):
+    tags = {'Exit', 'Events', 'Epic', 'LiveSet'}
+    n, steps = sizes(ctx, (48, 25), (600, 35))
+    prof = {'weights': {'new': 35, 'set': 35, 'prune': 10, 'plan': 5, 'compact': 3, 'claim': 5, 'seq': 5},
+            'states': ['done', 'canceled', 'todo', 'doing']}
+    driver.history_check(ctx, tags, n, steps, profile=prof)
+
+
+def check_C17(ctx):
+    tags = {'Title', 'Body', 'Events', 'Exit'}
+    n, steps = sizes(ctx, (32, 20), (300, 30))
+    prof = {'weights': {'new': 40, 'set': 40, 'plan': 10, 'compact': 5}}
+    driver.history_check(ctx, tags, n, steps, profile=prof)
+    codec_difftest(ctx)
+    long_text_roundtrip(ctx)
+
+
+def codec_difftest(ctx):
+    nvalid = 400 if ctx.quick() else 2600
+    p = subprocess.run([sys.executable, os.path.join(VERIF, 'harness', 'difftest_codec.py'), '--coq', COQ, '--ergo', ERGO,
+                        '--seed', str(ctx.seed), '--n', str(nvalid)], capture_output=True, text=True, timeout=3000)
+    ctx.cov['codec_difftest'] = {'rc': p.returncode, 'tail': p.stdout[-600:]}
+    if p.returncode != 0:
+        ctx.violations.append(('mismatch', 'JSON string codec model disagrees with encoding/json (see detail)',
+                               {'kind': 'codec', 'output': (p.stdout + p.stderr)[-3000:], 'no_failing_input': False}))
+
+
+def long_text_roundtrip(ctx):
+    """Character-for-character round trip of large / awkward texts through every input mode."""
+    rng = random.Random(ctx.seed)
+    alphabet = ['a', ' ', '\n', '"', '\\', '\t', '\x01', '\x1f', '<', '>', '&', 'é', '日', '\U0001F600', ' ', ' ',
+                '́', '\x7f', ' ', '{', '}', "'", '\r']
+    sizes_ = [1, 2, 17, 1000, 70000] if ctx.quick() else [1, 2, 17, 1000, 70000, 400000]
+    st = Store()
+    bad = []
+    n = 0
+    try:
+        for size in sizes_:
+            for mode in ('json', 'stdin', 'flags'):
+                body = 'x' + ''.join(rng.choice(alphabet) for _ in range(size)) + 'y'
+                title = 'T' + ''.join(rng.choice([c for c in alphabet if c != '\n' or True]) for _ in range(min(size, 200))) + 'Z'
+                if mode == 'flags' and size > 60000:
+                    continue      # argv limit of a single argument (128 KiB) — not an ergo limit
+                if mode == 'flags' or mode == 'stdin':
+                    if '\x00' in title:
+                        continue
+                r = history.Req(k='new', epic=False, mode=mode, fields={'title': title, 'body': body}, agent=None)
+                args, stdin = history.req_cli(r)
+                rc, out, err = st.run(args, stdin=stdin)
+                n += 1
+                if rc != 0:
+                    bad.append(('create_failed', mode, size, err.decode()[:200]))
+                    continue
+                i = json.loads(out)['id']
+                rc, out, _ = st.run(['--json', 'show', i])
+                got = json.loads(out)
+                exp_title = title if mode == 'json' else title.strip(monitors.GO_WS)
+                if got['title'] != exp_title or got['body'] != body:
+                    bad.append(('roundtrip', mode, size))
+                # set + compact
+                body2 = body[::-1]
+                rc, _, err = st.run(['set', i], stdin=json.dumps({'body': body2}, ensure_ascii=False).encode())
+                st.run(['compact'])
+                rc, out, _ = st.run(['--json', 'show', i])
+                if json.loads(out)['body'] != body2:
+                    bad.append(('roundtrip_after_set_compact', mode, size))
+        ctx.cov['long_text_cases'] = n
+        for b in bad:
+            ctx.violations.append(('monitor', 'text did not come back as it went in: %s' % (b,), {'kind': 'text', 'case': b}))
+    finally:
+        st.close()
 
 
 def replay(ctx, path):
     data = json.load(open(path))
-    print(json.dumps(data, indent=1)[:4000])
+    print(json.dumps(data, indent=1)[:6000])
     return 0
